@@ -105,6 +105,13 @@ class Subject:
         b = tp.build(ctx, rng)
         if cfg.sat_id is not None:
             b.sat_id = cfg.sat_id
+        # telemetry drop-outs that the calibration repairs internally (a thermometer reading below 50 counts, internal
+        # target / space counts below 100): the repaired values must never show up in what the accessors return
+        if len(nums) >= 20:
+            thermo = [i for i, x in enumerate(nums) if x % 5 != 0]
+            b.prt[rng.choice(thermo), :] = 10
+            b.ict[rng.randrange(len(nums)), 0] = 20
+            b.space[rng.randrange(len(nums)), 0] = 30
         # smooth tie points along a plausible track so that interpolation and slerp are well conditioned
         self.builder = b
         self.data = b.tobytes()
